@@ -498,9 +498,13 @@ func (ex *Exec) atReturn(results []Value) {
 		case SliceV:
 			ok = r.Abs != nil || r.Obj != nil && !r.Obj.Pre && !r.Obj.Global
 			if strings.HasPrefix(how, "fresh:") {
-				var n int
-				fmt.Sscanf(how, "fresh:%d", &n)
-				ok = ok && r.Len == n
+				okLen := false
+				for _, a := range strings.Split(how[6:], "|") {
+					var n int
+					fmt.Sscanf(a, "%d", &n)
+					okLen = okLen || r.Len == n
+				}
+				ok = ok && okLen
 			}
 		}
 		ex.oblige("post", "returns", BoolC(ok), fmt.Sprintf("result %d must be %s", i, how)).Props = fc.Props
